@@ -54,6 +54,20 @@ class Gaussian2D(_Box):
         return -0.5 * self._r2(x) - self.ndim * 0.5 * np.log(2 * np.pi)
 
 
+class OffsetLow2D(Gaussian2D):
+    """Unnormalised likelihood with a large negative constant: ln Z ~ -700 (exp(ln Z) underflows float64)."""
+
+    def log_likelihood(self, x):
+        return super().log_likelihood(x) - 700.0
+
+
+class OffsetHigh2D(Gaussian2D):
+    """... and a large positive one: ln Z ~ +700 (exp(ln Z) is near the float64 overflow)."""
+
+    def log_likelihood(self, x):
+        return super().log_likelihood(x) + 700.0
+
+
 class Gaussian3D(_Box):
     ndim = 3
 
@@ -181,6 +195,8 @@ class Angle2D(Model):
 MODELS = {
     "angle2": Angle2D,
     "gauss2": Gaussian2D,
+    "offlow2": OffsetLow2D,
+    "offhigh2": OffsetHigh2D,
     "gauss3": Gaussian3D,
     "gauss4": Gaussian4D,
     "rosen2": Rosenbrock2D,
